@@ -332,6 +332,7 @@ pub fn run(args: &Args, out: &mut Out) {
                     scheduler: true,
                     path: Some(f.to_string_lossy().to_string()),
                     origin: Some(format!("corpus:{name}")),
+                    split: None,
                 })
             } else {
                 let mut c = gen_case(args, rng, true);
